@@ -20,7 +20,7 @@ from . import lazy_common as L
 CANON_EVENT = dict((g, "read:%s:%s" % (spec["names"][0],
                                       "isotope" if g == "neutron_activation" else "element"))
                    for g, spec in L.GROUPS.items())
-TAIL = [{"op": "state", "label": "after"}] + L.FINISH
+TAIL = [{"op": "state", "label": "after"}] + L.FINISH + [{"op": "state", "label": "final"}]
 MAXV = 60
 
 
@@ -38,6 +38,11 @@ def _check_history(history, res, canon):
         if not L.same_value(v, exp):
             bad.append((i, n, v, exp))
     return bad, L.compare_public(res, canon)
+
+
+def _loader_state(st):
+    """hidden loader state: class cells of every lazy name + the set of table.properties"""
+    return (dict((g, v["cells"]) for g, v in st["groups"].items()), sorted(set(st["properties"])))
 
 
 def _state_summary(res, label="after"):
@@ -145,6 +150,8 @@ def task_steps(tier, seed, arg):
     results = L.run_many(progs, expect={"public": canon["hash"]})
     violations, samples, notes = [], [], []
     distinct = mixed = not_loading = 0
+    open_states = []
+    canon_state = _loader_state(canon["state"])
     if not canon["values_digest_ok"]:
         violations.append({"key": "steps:canonical:all-events-after-load",
                            "what": "evaluating the whole alphabet after the canonical load "
@@ -156,6 +163,8 @@ def task_steps(tier, seed, arg):
         st = _state_summary(res)
         if st.get(g) == "mixed":
             mixed += 1
+        if "crash" not in res and _loader_state(res["states"]["final"]) != canon_state:
+            open_states.append("%s:%s:%s" % (g, s, e))
         if s == "Loaded" or st.get(g) != "pending":
             distinct += 1
         else:
@@ -187,6 +196,12 @@ def task_steps(tier, seed, arg):
                          "values": [L.short(x[3], 160) for x in bad]}})
     notes.append("%d evaluations leave the group pending (event does not load: not counted as "
                  "distinct); %d leave a mixed class state" % (not_loading, mixed))
+    notes.append("closure: %d of %d evaluations end (after the finisher) in a loader state (class "
+                 "__dict__ cells of the lazy names + set of elements.properties) different from the "
+                 "canonical one%s" % (len(open_states), len(triples),
+                                      (": %s" % open_states[:20]) if open_states else
+                                      "; every other reachable loader state is the canonical one, "
+                                      "so the step obligations are closed under composition"))
     notes.append("alphabet: %d events; canonical hashes %s" % (
         len(L.EVENTS), dict((g, h[:8]) for g, h in canon["hash"].items())))
     notes.append("wall %.1fs" % (time.time() - t0))
